@@ -257,3 +257,21 @@ theorem C13_hide_time_shuffle_is_a_run_step (σ : List J → List J) (hσ : ∀ 
     ∃ x', shuffleJ σ x.payload = x'.payload ∧ T.sdPermVis (MJ.replaceDeep pI toks T x') := by
   obtain ⟨x', hp, he⟩ := MJ.shuffle_payload σ hσ x hwf
   exact ⟨x', he, MJ.sdPermVis_replaceDeep pI x x' hp toks T hget⟩
+
+/-- the same for every SELECTION of the disclosures (the verifier's side, C02 / C03): the shuffled payload with
+any repetition-free, ancestor-closed or not, selection of the token's own disclosures is accepted and strips to
+the same projection of the original claims as the unshuffled one -/
+theorem C13_shuffle_changes_no_selection (env : Env) (σ : List J → List J) (hσ : ∀ l, (σ l).Perm l)
+    (T : MJ) (strs : List String) (inv : TreeInv T)
+    (hdec : ∀ s ∈ strs, ∃ d, fromBase64 env s = .ok d)
+    (hnd : (strs.map env.hash).Nodup)
+    (hacc : ∀ s ∈ strs, ∀ d, fromBase64 env s = .ok d →
+      DOk T d ∧ ∃ x, (d.digest, x) ∈ T.hiddenE ∧ d.value = x.payload) :
+    ∃ c ps, restoreAll env (shuffleJ σ T.payload) strs = .ok (c, ps) ∧
+      removeAll c = T.project (fun h => strs.any (fun s => env.hash s = h)) := by
+  obtain ⟨T', hperm, hpay⟩ := MJ.shuffle_payload σ hσ T inv.wf
+  obtain ⟨c, ps, h1, h2⟩ := restoreAll_complete env T' strs (TreeInv.sdPermVis hperm inv) hdec hnd
+    (fun s hs d hf => by
+      obtain ⟨ok, x, hx, hv⟩ := hacc s hs d hf
+      exact ⟨DOk.sdPermVis hperm ok, x, by rw [MJ.hiddenE_sdPermVis T T' hperm]; exact hx, hv⟩)
+  exact ⟨c, ps, by rw [hpay]; exact h1, by rw [h2]; exact MJ.project_sdPermVis _ T T' hperm⟩
